@@ -214,11 +214,19 @@ class MergeMain:
     loops = {"for yaml_file in args.yaml_files": {
         "elem_assume": ["isinstance(yaml_file, str)"],           # argparse: nargs='*' of text arguments
         "invariant": ["exit_state == 0", "iters >= 1 or not consumed_stdin"],
-        "body_ensures": ["implies(not exited, exit_state == 0)", "implies(exited, exit_state != 0)"]}}
+        "body_ensures": ["implies(not exited, exit_state == 0)", "implies(exited, exit_state != 0)",
+                         # the status of this iteration's merge is the status the iteration ends with (C10/C05: a refused merge
+                         # -- anchor conflict under `stop`, a merge error -- is a refused run)
+                         "called('merge') <= 1",
+                         "implies(called('merge') == 1, same(call_event('merge')[2], exit_state))"]}}
     # every path ends in SystemExit: raised by the argument handling (processcli, validateargs: no 'exit' event, nothing
     # written before), or by the final sys.exit(exit_state)
     opts = {"exc_ensures": {"SystemExit": [
         "called('exit') <= 1 and called('write') <= 1",
         "implies(called('exit') == 0, called('write') == 0)",
         "implies(called('exit') == 1, same(call_event('exit')[1], exit_state) and (called('write') == 1) == (exit_state == 0))",
+        # the document waiting on STDIN (merged after the loop): a status other than 0 from that merge ends the run with a
+        # status other than 0 and nothing written
+        "called_after_loops('merge') <= 1",
+        "implies(called('exit') == 1 and called_after_loops('merge') == 1 and not same(call_event('merge')[2], 0), exit_state != 0 and called('write') == 0)",
     ]}}
